@@ -157,7 +157,10 @@ def build_sim(case):
         c.silent = xy in {tuple(s) for s in case["silent"]}
     m.p2p_extra_none = {tuple(c) for c in case["unlisted"]}
     m.p2p_extra = {tuple(c) for c in case["ghosts"]}
-    m.finalise()
+    if (case["w"] + case["h"] + case["buf"]) % 2:
+        m.diversify(case["buf"])    # chips disagree on sv pointers
+    else:
+        m.finalise()
     return m, chips
 
 
@@ -367,18 +370,18 @@ def run(case, ctx):
         for name, (ch, off, _, cnt) in M.structs()["vcpu"]["fields"].items():
             if ch.endswith("s"):
                 v = pb["name"].encode()[:16]
-                c.wr(M.VCPU_BASE + 128 * p + off, v.ljust(16, b"\0"),
+                c.wr(c.vcpu_base + 128 * p + off, v.ljust(16, b"\0"),
                      log=False)
             elif name == "cpu_state":
                 v = c.core_state[p]
             elif name == "rt_code":
                 v = rng.randrange(21)
-                c.poke(M.VCPU_BASE + 128 * p + off, ch, v)
+                c.poke(c.vcpu_base + 128 * p + off, ch, v)
             elif name == "__PAD":
                 v = 0
             else:
                 v = rng.getrandbits(8 * struct.calcsize("<" + ch))
-                c.poke(M.VCPU_BASE + 128 * p + off, ch, v)
+                c.poke(c.vcpu_base + 128 * p + off, ch, v)
             vals[name] = v
         # iobuf chain
         addr = 0
@@ -393,7 +396,7 @@ def run(case, ctx):
                  data.ljust(case["iobuf_size"], b"\xee"), log=False)
             text += data
         first = blocks[0][0] if blocks else 0
-        c.poke(M.vcpu_field("iobuf", p)[0], "I", first)
+        c.poke(M.vcpu_field("iobuf", p, c.vcpu_base)[0], "I", first)
         vals["iobuf"] = first
         ps = mc.get_processor_status(p, xy[0], xy[1])
         ctx.hit("processor_status_checked")
